@@ -28,7 +28,7 @@ ASSUMPTIONS = ["well-formed lanelets: simple polygons (generator guarantees it, 
                "file routes use coordinates rounded to 4 decimals (exactly representable at the writer precision)"]
 
 ROUTES = ["list", "add", "scenario", "scenario-list", "scenario-mixed-list", "scenario-network", "deepcopy", "pickle",
-          "from-network", "batch-removal", "xml", "pb"]
+          "from-network", "batch-removal", "merged-network", "xml", "pb"]
 
 
 def round_net(net, nd=4):
@@ -88,6 +88,19 @@ def build_by_route(net, route):
                 time_step=0, position=np.array([1.0e6, 1.0e6]), orientation=0.0)))
         sc.add_objects(objs)
         return sc.lanelet_network
+    if route == "merged-network":
+        # the network grows by merging another network into it; the LAST lanelet of the other network has an id that
+        # is already in use and is rejected with a warning (the library stops adding at the first rejection, so a
+        # duplicate further up would keep the later lanelets out of the network altogether)
+        ls = [gs.build_lanelet(l) for l in net["lanelets"]]
+        k = max(1, len(ls) // 2)
+        n = LaneletNetwork.create_from_lanelet_list(ls[:k], cleanup_ids=False)
+        rest = ls[k:]
+        dup = gs.build_lanelet(dict(net["lanelets"][0], pred=[], succ=[], adj_left=None, adj_right=None))
+        rest.append(dup)
+        other = LaneletNetwork.create_from_lanelet_list(rest, cleanup_ids=False)
+        n.add_lanelets_from_network(other)
+        return n
     if route == "scenario-network":
         sc.add_objects(LaneletNetwork.create_from_lanelet_list([gs.build_lanelet(l) for l in net["lanelets"]]))
         return sc.lanelet_network
